@@ -102,6 +102,47 @@ def expected (d : Doc) : List NV :=
   dedup ((if stdlibVersion d ≠ [] then [⟨"stdlib".toList, stdlibVersion d⟩] else []) ++
     (d.requires.filter fun r => decide (stdlibVersion d = [] ∨ keyOf r ≠ stdlibKey)).map (finalOf d))
 
+/-! ### The go command's rule, stated without looking at the extractor
+
+"Go Modules Reference", `replace` directive: *"If a version is present on the left side of the arrow, only that specific version of
+the module is replaced; other versions will be accessed normally. If the left version is omitted, all versions of the module are
+replaced."* The go command looks a required module up first under (path, version) and only then under (path, no version)
+(`modload.Replacement`), so a version-specific directive takes precedence over a wildcard one wherever the two are written, and the
+look-up is done ONCE, on the module as required: the result of a replacement is never looked up again (no chaining). Two directives
+with the same left side and different right sides are an error of the go command ("conflicting replacements"): `consistent`. -/
+
+def newOf (rp : Replace) : NV := ⟨rp.newPath, trimPrefixV rp.newVersion⟩
+/-- the directive names exactly this (path, version) -/
+def isExact (k : Str × Str) (rp : Replace) : Bool := !rp.oldVersion.isEmpty && decide ((rp.oldPath, trimPrefixV rp.oldVersion) = k)
+/-- the directive names every version of this path -/
+def isWild (p : Str) (rp : Replace) : Bool := rp.oldVersion.isEmpty && decide (rp.oldPath = p)
+
+/-- what a `require` line stands for under the go command's rule -/
+def goFinal (d : Doc) (r : Str × Str) : NV :=
+  match d.replaces.find? (isExact (keyOf r)) with
+  | some rp => newOf rp
+  | none =>
+    match d.replaces.find? (isWild r.1) with
+    | some rp => newOf rp
+    | none => ⟨r.1, trimPrefixV r.2⟩
+
+/-- no two directives with the same left side and different right sides -/
+def consistent (d : Doc) : Bool :=
+  d.replaces.all fun a => d.replaces.all fun b =>
+    !(decide (a.oldPath = b.oldPath) && decide (trimPrefixV a.oldVersion = trimPrefixV b.oldVersion) && (a.oldVersion.isEmpty == b.oldVersion.isEmpty))
+      || decide (newOf a = newOf b)
+
+/-- what a scan must report under the go command's rule: `stdlib` at the toolchain / go version when there is one, and what every
+`require` line stands for; one package per distinct (name, version) -/
+def expectedGo (d : Doc) : List NV :=
+  dedup ((if stdlibVersion d ≠ [] then [⟨"stdlib".toList, stdlibVersion d⟩] else []) ++
+    (d.requires.filter fun r => decide (stdlibVersion d = [] ∨ keyOf r ≠ stdlibKey)).map (goFinal d))
+
+def expectedGoSum (d : Doc) (older : Bool) (sum : Sum) : List NV :=
+  match older, sum with
+  | true, some es => dedup (expectedGo d ++ es.filterMap sumEntry)
+  | _, _ => expectedGo d
+
 /-- with the go.sum branch (go older than 1.17 and a readable go.sum): additionally every module go.sum lists (not its `/go.mod` hash
 lines), at the version written there; one package per distinct (name, version) -/
 def expectedSum (d : Doc) (older : Bool) (sum : Sum) : List NV :=
